@@ -113,7 +113,9 @@ class C09(Harness):
         self._curW = W
         log = []
         Member = make_member(W, log)
-        T, TSkip = make_transformer(W, log)
+        # (the plain pipeline's transformers are stateful: an update with parameter re-estimation moves their state, so the
+        #  order "update the transformer, then transform the new data with it" is observable)
+        T, TSkip = make_transformer(W, log, stateful=(cell["kind"] == "pipeline"))
         n, s0 = inp["n"], inp["s0"]
         y = pd.Series(inp["y"], index=pd.RangeIndex(s0, s0 + n))
         nb = len(inp["u"])
@@ -272,16 +274,18 @@ class C09(Harness):
         elif kind == "pipeline":
             NT = cell["NT"]
 
-            def fwd(v, upto=NT):
+            def fwd(v, upto=NT, shift=0):
                 for t in range(1, upto + 1):
-                    v = Tf(t, v)
+                    v = Tf(t + shift, v)
                 return v
 
-            def bwd(v):
+            def bwd(v, shift=0):
                 for t in range(NT, 0, -1):
                     if not inp["skip"][t - 1]:
-                        v = Ti(t, v)
+                        v = Ti(t + shift, v)
                 return v
+
+            sh = 100 if (nb and inp["update_params"]) else 0  # state of the transformers after the update
 
             # transformers fitted in order on the successively transformed series
             for t in range(1, NT + 1):
@@ -295,21 +299,21 @@ class C09(Harness):
                 for v, h in zip(out["pred1"][1], fh):
                     P.eq("pipeline-predict-chain", v, bwd(F(9, c1, c1 + h)))
             if nb:
-                updated(out["updlog"], 9, [fwd(v) for v in u], "pipeline-update-transformed")
+                updated(out["updlog"], 9, [fwd(v, NT, sh) for v in u], "pipeline-update-transformed")
                 for t in range(1, NT + 1):
                     es = [e for e in out["updlog"] if e["op"] == "t.update" and e["who"] == t]
                     P.check("pipeline-update-transformed", len(es) == 1 and len(es[0]["vals"]) == nb)
                     for e in es[:1]:
                         for i, v in enumerate(e["vals"]):
-                            P.eq("pipeline-update-transformed", v, fwd(u[i], t - 1))
+                            P.eq("pipeline-update-transformed", v, fwd(u[i], t - 1, sh))
                 if check_index(out["pred2"], c2):
                     for v, h in zip(out["pred2"][1], fh):
-                        P.eq("pipeline-predict-chain", v, bwd(F(9, c2, c2 + h)))
+                        P.eq("pipeline-predict-chain", v, bwd(F(9, c2, c2 + h), sh))
             for i in range(2):
-                P.eq("pipeline-transform-methods", out["tr"][i], fwd(y[i]))
+                P.eq("pipeline-transform-methods", out["tr"][i], fwd(y[i], NT, sh))  # (with the transformers' current state)
                 v = y[i]
                 for t in range(NT, 0, -1):
-                    v = Ti(t, v)
+                    v = Ti(t + sh, v)
                 P.eq("pipeline-transform-methods", out["itr"][i], v)
         elif kind == "multiplexer":
             p = inp["sel"] + 1
